@@ -262,4 +262,538 @@ Section Proofs.
   Theorem wf_run l s : wf (fst (run l (init s))).
   Proof. apply wf_run_gen, wf_init. Qed.
 
+  (* ================= published_only_at_commit ================= *)
+
+  Definition may_publish (x : bstep) : bool :=
+    match x with TCommit _ | Single _ => true | _ => false end.
+
+  Lemma abort_pub h w : pub (fst (abort h w)) = pub w.
+  Proof.
+    unfold TxnSeq.abort. destruct (nth_error (txns w) h) as [[[|] [s|]]|]; reflexivity.
+  Qed.
+
+  Lemma pub_unchanged_unless_commit x w : may_publish x = false -> pub (fst (bstep_run x w)) = pub w.
+  Proof.
+    destruct x; simpl; intros M; try discriminate; auto.
+    - unfold TxnSeq.begin. destruct (wr && locked w); reflexivity.
+    - unfold TxnSeq.t_wop. destruct (nth_error (txns w) h) as [[[|] [s|]]|]; simpl; auto.
+      destruct (wapply s o); reflexivity.
+    - unfold TxnSeq.t_rop. destruct (nth_error (txns w) h) as [[[|] [s|]]|]; reflexivity.
+    - apply abort_pub.
+    - unfold TxnSeq.snapshot. destruct (nth_error (txns w) h) as [[[|] [s|]]|]; reflexivity.
+    - unfold TxnSeq.iter. destruct (nth_error (txns w) h) as [[[|] [s|]]|]; reflexivity.
+  Qed.
+
+  Lemma published_only_at_commit_lemma x w :
+    pub (fst (bstep_run x w)) = pub w \/
+    (exists h s, x = TCommit h /\ nth_error (txns w) h = Some (mkTxn true (Some s)) /\ pub (fst (bstep_run x w)) = s) \/
+    (exists o, x = Single o /\ locked w = false /\ wfail (snd (wapply (pub w) o)) = false /\
+               pub (fst (bstep_run x w)) = fst (wapply (pub w) o)).
+  Proof.
+    destruct (may_publish x) eqn:M.
+    - destruct x; try discriminate; simpl.
+      + destruct (nth_error (txns w) h) as [t|] eqn:H.
+        * destruct (live_w t) eqn:L.
+          -- destruct (live_inv _ L) as [s ->]. right; left. exists h, s. rewrite (commit_live _ _ _ H). auto.
+          -- rewrite (commit_not_live _ _ _ H L). auto.
+        * unfold TxnSeq.commit. rewrite H. auto.
+      + rewrite single_spec. destruct (locked w) eqn:L; auto. simpl.
+        destruct (wfail (snd (wapply (pub w) o))) eqn:F; auto.
+        right; right. exists o. auto.
+    - left. apply pub_unchanged_unless_commit; auto.
+  Qed.
+
+  Lemma run_bsteps_no_publish l w :
+    Forall (fun x => may_publish x = false) l -> pub (run_bsteps l w) = pub w.
+  Proof.
+    revert w. induction l as [|x l IH]; simpl; intros w F; auto.
+    inversion F; subst. rewrite IH by auto. apply pub_unchanged_unless_commit; auto.
+  Qed.
+
+  (* ================= the managed transaction's own handle ================= *)
+
+  Lemma nth_error_app_inv {A} (l : list A) x h t :
+    nth_error (l ++ [x]) h = Some t -> nth_error l h = Some t \/ (h = length l /\ t = x).
+  Proof.
+    intros H. destruct (Nat.lt_ge_cases h (length l)) as [Lt|Ge].
+    - rewrite nth_error_app1 in H by auto. auto.
+    - rewrite nth_error_app2 in H by auto. destruct (h - length l) as [|k] eqn:K; simpl in H.
+      + inversion H. right. split; auto. lia.
+      + destruct k; discriminate.
+  Qed.
+
+  Definition only_live (h : nat) (w : world) : Prop :=
+    forall h' t, nth_error (txns w) h' = Some t -> live_w t = true -> h' = h.
+
+  (* steps that neither start another write transaction nor commit transaction h *)
+  Definition quiet (h : nat) (x : bstep) : bool :=
+    match x with
+    | Begin true => false
+    | Single _ => false
+    | TCommit h' => negb (h' =? h)
+    | _ => true
+    end.
+
+  Lemma only_live_app h w t :
+    only_live h w -> live_w t = false ->
+    only_live h (mkW (pub w) (locked w) (txns w ++ [t])).
+  Proof.
+    intros O L h' t' H' L'. simpl in H'. apply nth_error_app_inv in H'. destruct H' as [H'|[_ ->]]; eauto.
+    congruence.
+  Qed.
+
+  Lemma quiet_step h x w :
+    wf w -> only_live h w -> quiet h x = true ->
+    only_live h (fst (bstep_run x w)) /\ pub (fst (bstep_run x w)) = pub w.
+  Proof.
+    intros W O Q. destruct x; simpl in *; try discriminate.
+    - destruct wr; try discriminate. unfold TxnSeq.begin. simpl. split; auto. apply only_live_app; auto.
+    - split; [|apply (pub_unchanged_unless_commit (TWrite h0 o)); auto].
+      unfold TxnSeq.t_wop. destruct (nth_error (txns w) h0) as [[[|] [s|]]|] eqn:H; simpl; auto.
+      destruct (wapply s o) as [s' r]. simpl. intros h' t H' L'. simpl in H'.
+      destruct (Nat.eq_dec h0 h') as [->|Ne].
+      + eapply O; eauto.
+      + rewrite nth_upd_other in H' by auto. eauto.
+    - split; [|apply (pub_unchanged_unless_commit (TRead h0 r)); auto].
+      unfold TxnSeq.t_rop. destruct (nth_error (txns w) h0) as [[[|] [s|]]|]; auto.
+    - apply negb_true_iff, Nat.eqb_neq in Q.
+      destruct (nth_error (txns w) h0) as [t|] eqn:H.
+      + destruct (live_w t) eqn:L.
+        * exfalso. apply Q. eauto.
+        * rewrite (commit_not_live _ _ _ H L). auto.
+      + unfold TxnSeq.commit. rewrite H. auto.
+    - split; [|apply abort_pub].
+      destruct (nth_error (txns w) h0) as [t|] eqn:H.
+      + destruct (live_w t) eqn:L.
+        * destruct (live_inv _ L) as [s ->]. rewrite (abort_live _ _ _ H). simpl.
+          intros h' t' H' L'. simpl in H'. destruct (Nat.eq_dec h0 h') as [->|Ne].
+          -- rewrite (nth_upd_same _ _ _ _ H) in H'. inversion H'; subst. discriminate.
+          -- rewrite nth_upd_other in H' by auto. eauto.
+        * rewrite (abort_not_live _ _ _ H L). auto.
+      + unfold TxnSeq.abort. rewrite H. auto.
+    - split; [|apply (pub_unchanged_unless_commit (TSnapshot h0)); auto].
+      unfold TxnSeq.snapshot. destruct (nth_error (txns w) h0) as [[wr [s|]]|]; simpl; auto.
+      apply only_live_app; auto.
+    - split; [|apply (pub_unchanged_unless_commit (TIter h0)); auto].
+      unfold TxnSeq.iter. destruct (nth_error (txns w) h0) as [[wr [s|]]|]; simpl; auto.
+      apply only_live_app; auto.
+    - auto.
+  Qed.
+
+  Lemma quiet_run_body h b w :
+    wf w -> only_live h w -> Forall (fun x => quiet h x = true) b ->
+    pub (fst (fst (run_body b w))) = pub w.
+  Proof.
+    revert w. induction b as [|x b IH]; simpl; intros w W O F; auto.
+    inversion F; subst.
+    destruct (quiet_step h x w W O) as [O1 P1]; auto.
+    pose proof (wf_bstep x _ W) as W1.
+    destruct (bstep_run x w) as [w1 o]. simpl in *.
+    destruct (is_panic o); simpl; auto.
+    specialize (IH _ W1 O1 H2). destruct (run_body b w1) as [[w2 os] p]. simpl in *. congruence.
+  Qed.
+
+  Lemma begin_true_unlocked w :
+    locked w = false ->
+    begin true w = (mkW (pub w) true (txns w ++ [mkTxn true (Some (pub w))]), OHandle (length (txns w))).
+  Proof. unfold TxnSeq.begin. intros ->. reflexivity. Qed.
+
+  Lemma only_live_begin w :
+    wf w -> locked w = false ->
+    only_live (length (txns w)) (mkW (pub w) true (txns w ++ [mkTxn true (Some (pub w))])).
+  Proof.
+    intros W U h' t H' L'. simpl in H'. apply nth_error_app_inv in H'. destruct H' as [H'|[-> _]]; auto.
+    rewrite (wf_unlocked_not_live _ _ _ W U H') in L'. discriminate.
+  Qed.
+
+  (* ================= abort_error_panic_invisible ================= *)
+
+  Definition starts_writer (x : bstep) : bool :=
+    match x with Begin true => true | Single _ => true | _ => false end.
+
+  Lemma idle_step x w :
+    wf w -> locked w = false -> starts_writer x = false ->
+    locked (fst (bstep_run x w)) = false /\ pub (fst (bstep_run x w)) = pub w.
+  Proof.
+    intros W U Q. destruct x; simpl in *; try discriminate.
+    - destruct wr; try discriminate. unfold TxnSeq.begin. simpl. rewrite U. auto.
+    - unfold TxnSeq.t_wop. destruct (nth_error (txns w) h) as [t|] eqn:H; auto.
+      pose proof (wf_unlocked_not_live _ _ _ W U H) as L.
+      destruct t as [[|] [s|]]; simpl in *; auto. discriminate.
+    - unfold TxnSeq.t_rop. destruct (nth_error (txns w) h) as [[[|] [s|]]|]; auto.
+    - destruct (nth_error (txns w) h) as [t|] eqn:H.
+      + rewrite (commit_not_live _ _ _ H (wf_unlocked_not_live _ _ _ W U H)). auto.
+      + unfold TxnSeq.commit. rewrite H. auto.
+    - destruct (nth_error (txns w) h) as [t|] eqn:H.
+      + rewrite (abort_not_live _ _ _ H (wf_unlocked_not_live _ _ _ W U H)). auto.
+      + unfold TxnSeq.abort. rewrite H. auto.
+    - unfold TxnSeq.snapshot. destruct (nth_error (txns w) h) as [[wr [s|]]|]; simpl; auto.
+    - unfold TxnSeq.iter. destruct (nth_error (txns w) h) as [[wr [s|]]|]; simpl; auto.
+    - auto.
+  Qed.
+
+  Lemma idle_run l w :
+    wf w -> locked w = false -> Forall (fun x => starts_writer x = false) l ->
+    locked (run_bsteps l w) = false /\ pub (run_bsteps l w) = pub w.
+  Proof.
+    revert w. induction l as [|x l IH]; simpl; intros w W U F; auto.
+    inversion F; subst. destruct (idle_step x w W U) as [U1 P1]; auto.
+    destruct (IH _ (wf_bstep x _ W) U1 H2) as [U2 P2]. split; congruence.
+  Qed.
+
+  Lemma managed_failed_invisible b e w :
+    wf w -> locked w = false ->
+    Forall (fun x => quiet (length (txns w)) x = true) b ->
+    e <> RetNil \/ snd (run_body b (fst (begin true w))) = true ->
+    pub (fst (managed true b e w)) = pub w.
+  Proof.
+    intros W U F E. unfold TxnSeq.managed. rewrite (begin_true_unlocked _ U) in *. simpl in E.
+    set (w1 := mkW (pub w) true (txns w ++ [mkTxn true (Some (pub w))])) in *.
+    assert (W1 : wf w1).
+    { pose proof (wf_begin true _ W) as X. rewrite (begin_true_unlocked _ U) in X. exact X. }
+    pose proof (quiet_run_body _ b w1 W1 (only_live_begin _ W U) F) as P.
+    destruct (run_body b w1) as [[w2 os] p]. simpl in *.
+    destruct p; simpl; [rewrite abort_pub; auto|].
+    destruct e; simpl; try (rewrite abort_pub; auto).
+    destruct E as [E|E]; [congruence|discriminate].
+  Qed.
+
+  (* ================= lock_released ================= *)
+
+  Definition holds (h : nat) (w : world) : Prop :=
+    locked w = true -> exists s, nth_error (txns w) h = Some (mkTxn true (Some s)).
+
+  Definition no_begin_w (x : bstep) : bool := match x with Begin true => false | _ => true end.
+
+  Lemma commit_locked h w : locked (fst (commit h w)) = false \/ fst (commit h w) = w.
+  Proof.
+    unfold TxnSeq.commit. destruct (nth_error (txns w) h) as [[[|] [s|]]|]; simpl; auto.
+  Qed.
+
+  Lemma abort_locked h w : locked (fst (abort h w)) = false \/ fst (abort h w) = w.
+  Proof.
+    unfold TxnSeq.abort. destruct (nth_error (txns w) h) as [[[|] [s|]]|]; simpl; auto.
+  Qed.
+
+  Lemma holds_app h w t : holds h w -> holds h (mkW (pub w) (locked w) (txns w ++ [t])).
+  Proof.
+    intros K L. destruct (K L) as [s H]. exists s. simpl. apply nth_error_app_lt; auto.
+  Qed.
+
+  Lemma holds_step h x w :
+    wf w -> holds h w -> no_begin_w x = true -> holds h (fst (bstep_run x w)).
+  Proof.
+    intros W K Q. destruct x; simpl in *.
+    - destruct wr; try discriminate. unfold TxnSeq.begin. simpl.
+      replace (locked w || false) with (locked w) by (destruct (locked w); auto). apply holds_app; auto.
+    - unfold TxnSeq.t_wop. destruct (nth_error (txns w) h0) as [[[|] [s|]]|] eqn:H; simpl; auto.
+      destruct (wapply s o) as [s' r]. simpl. intros L. simpl in L. destruct (K L) as [s0 H0].
+      destruct (Nat.eq_dec h0 h) as [->|Ne].
+      + exists s'. simpl. eapply nth_upd_same; eauto.
+      + exists s0. simpl. rewrite nth_upd_other; auto.
+    - unfold TxnSeq.t_rop. destruct (nth_error (txns w) h0) as [[[|] [s|]]|]; auto.
+    - destruct (commit_locked h0 w) as [E|E]; [intros L; congruence|rewrite E; auto].
+    - destruct (abort_locked h0 w) as [E|E]; [intros L; congruence|rewrite E; auto].
+    - unfold TxnSeq.snapshot. destruct (nth_error (txns w) h0) as [[wr [s|]]|]; simpl; auto.
+      apply holds_app; auto.
+    - unfold TxnSeq.iter. destruct (nth_error (txns w) h0) as [[wr [s|]]|]; simpl; auto.
+      apply holds_app; auto.
+    - rewrite single_spec. destruct (locked w) eqn:L; auto. intros L'. simpl in L'. discriminate.
+    - auto.
+  Qed.
+
+  Lemma holds_run_body h b w :
+    wf w -> holds h w -> Forall (fun x => no_begin_w x = true) b ->
+    wf (fst (fst (run_body b w))) /\ holds h (fst (fst (run_body b w))).
+  Proof.
+    revert w. induction b as [|x b IH]; simpl; intros w W K F; auto.
+    inversion F; subst.
+    pose proof (holds_step h x w W K H1) as K1. pose proof (wf_bstep x _ W) as W1.
+    destruct (bstep_run x w) as [w1 o]. simpl in *.
+    destruct (is_panic o); simpl; auto.
+    specialize (IH _ W1 K1 H2). destruct (run_body b w1) as [[w2 os] p]. auto.
+  Qed.
+
+  Lemma holds_release_abort h w : wf w -> holds h w -> locked (fst (abort h w)) = false.
+  Proof.
+    intros W K. destruct (locked w) eqn:L.
+    - destruct (K L) as [s H]. rewrite (abort_live _ _ _ H). reflexivity.
+    - destruct (abort_locked h w) as [E|E]; auto. rewrite E; auto.
+  Qed.
+
+  Lemma holds_release_commit h w : wf w -> holds h w -> locked (fst (commit h w)) = false.
+  Proof.
+    intros W K. destruct (locked w) eqn:L.
+    - destruct (K L) as [s H]. rewrite (commit_live _ _ _ H). reflexivity.
+    - destruct (commit_locked h w) as [E|E]; auto. rewrite E; auto.
+  Qed.
+
+  Lemma abort_keeps_unlocked h w : locked w = false -> locked (fst (abort h w)) = false.
+  Proof. intros U. destruct (abort_locked h w) as [E|E]; auto. rewrite E; auto. Qed.
+
+  Lemma managed_releases wr b e w :
+    wf w -> locked w = false -> Forall (fun x => no_begin_w x = true) b ->
+    locked (fst (managed wr b e w)) = false.
+  Proof.
+    intros W U F. unfold TxnSeq.managed.
+    assert (B : begin wr w = (mkW (pub w) wr (txns w ++ [mkTxn wr (Some (pub w))]), OHandle (length (txns w)))).
+    { unfold TxnSeq.begin. rewrite U. destruct wr; reflexivity. }
+    rewrite B.
+    set (w1 := mkW (pub w) wr (txns w ++ [mkTxn wr (Some (pub w))])).
+    assert (W1 : wf w1).
+    { pose proof (wf_begin wr _ W) as X. rewrite B in X. exact X. }
+    assert (K1 : holds (length (txns w)) w1).
+    { intros L. simpl in L. subst wr. exists (pub w). simpl. apply nth_error_app_len. }
+    destruct (holds_run_body _ b w1 W1 K1 F) as [W2 K2].
+    destruct (run_body b w1) as [[w2 os] p]. simpl in *.
+    destruct p; simpl; [apply holds_release_abort; auto|].
+    destruct e; simpl; try (apply holds_release_abort; auto).
+    destruct wr; simpl; [|apply holds_release_abort; auto].
+    apply abort_keeps_unlocked. apply holds_release_commit; auto.
+  Qed.
+
+  (* ================= read_your_writes / commit_all_at_once ================= *)
+
+  Definition not_ending (h : nat) (x : bstep) : bool :=
+    match x with TCommit h' | TAbort h' => negb (h' =? h) | _ => true end.
+
+  Fixpoint own_writes (h : nat) (l : list bstep) : list wop :=
+    match l with
+    | [] => []
+    | TWrite h' o :: l' => if h' =? h then o :: own_writes h l' else own_writes h l'
+    | _ :: l' => own_writes h l'
+    end.
+
+  Definition own_write1 (h : nat) (x : bstep) : list wop :=
+    match x with TWrite h' o => if h' =? h then [o] else [] | _ => [] end.
+
+  Lemma own_writes_cons h x l : own_writes h (x :: l) = own_write1 h x ++ own_writes h l.
+  Proof. destruct x; simpl; auto. destruct (h0 =? h); auto. Qed.
+
+  Lemma wfold_app s l l' : wfold (s) (l ++ l') = wfold (wfold s l) l'.
+  Proof. unfold TxnSeq.wfold. apply fold_left_app. Qed.
+
+  Lemma ryw_step h x w s :
+    wf w -> nth_error (txns w) h = Some (mkTxn true (Some s)) -> not_ending h x = true ->
+    nth_error (txns (fst (bstep_run x w))) h = Some (mkTxn true (Some (wfold s (own_write1 h x)))) /\
+    pub (fst (bstep_run x w)) = pub w.
+  Proof.
+    intros W H Q.
+    assert (Lk : locked w = true) by (eapply wf_live_locked; eauto).
+    destruct x; simpl in *.
+    - unfold TxnSeq.begin. rewrite Lk. destruct wr; simpl; auto. split; auto. apply nth_error_app_lt; auto.
+    - split; [|apply (pub_unchanged_unless_commit (TWrite h0 o)); auto].
+      unfold TxnSeq.t_wop. destruct (Nat.eqb_spec h0 h) as [->|Ne].
+      + rewrite H. simpl. destruct (wapply s o) as [s' r] eqn:E. simpl.
+        erewrite nth_upd_same by eauto. unfold TxnSeq.wfold. simpl. reflexivity.
+      + destruct (nth_error (txns w) h0) as [t|] eqn:H0; auto.
+        destruct (live_w t) eqn:L.
+        * exfalso. apply Ne. eapply wf_unique; eauto.
+        * destruct t as [[|] [s0|]]; simpl in *; auto. discriminate.
+    - split; [|apply (pub_unchanged_unless_commit (TRead h0 r)); auto].
+      unfold TxnSeq.t_rop. destruct (nth_error (txns w) h0) as [[[|] [s0|]]|]; auto.
+    - apply negb_true_iff, Nat.eqb_neq in Q.
+      destruct (nth_error (txns w) h0) as [t|] eqn:H0.
+      + destruct (live_w t) eqn:L.
+        * exfalso. apply Q. eapply wf_unique; eauto.
+        * rewrite (commit_not_live _ _ _ H0 L). auto.
+      + unfold TxnSeq.commit. rewrite H0. auto.
+    - apply negb_true_iff, Nat.eqb_neq in Q.
+      destruct (nth_error (txns w) h0) as [t|] eqn:H0.
+      + destruct (live_w t) eqn:L.
+        * exfalso. apply Q. eapply wf_unique; eauto.
+        * rewrite (abort_not_live _ _ _ H0 L). auto.
+      + unfold TxnSeq.abort. rewrite H0. auto.
+    - unfold TxnSeq.snapshot. destruct (nth_error (txns w) h0) as [[wr [s0|]]|]; simpl; auto.
+      split; auto. apply nth_error_app_lt; auto.
+    - unfold TxnSeq.iter. destruct (nth_error (txns w) h0) as [[wr [s0|]]|]; simpl; auto.
+      split; auto. apply nth_error_app_lt; auto.
+    - rewrite single_spec, Lk. auto.
+    - auto.
+  Qed.
+
+  Lemma ryw_run h l w s :
+    wf w -> nth_error (txns w) h = Some (mkTxn true (Some s)) ->
+    Forall (fun x => not_ending h x = true) l ->
+    nth_error (txns (run_bsteps l w)) h = Some (mkTxn true (Some (wfold s (own_writes h l)))) /\
+    pub (run_bsteps l w) = pub w.
+  Proof.
+    revert w s. induction l as [|x l IH]; intros w s W H F.
+    - simpl. auto.
+    - inversion F; subst. destruct (ryw_step h x w s W H H2) as [H' P'].
+      cbn [TxnSeq.run_bsteps]. destruct (IH _ _ (wf_bstep x _ W) H' H3) as [H'' P''].
+      rewrite own_writes_cons, wfold_app. split; congruence.
+  Qed.
+
+  Lemma run_body_no_panic b w :
+    snd (run_body b w) = false -> fst (fst (run_body b w)) = run_bsteps b w.
+  Proof.
+    revert w. induction b as [|x b IH]; simpl; intros w P; auto.
+    destruct (bstep_run x w) as [w1 o]. simpl.
+    destruct (is_panic o); simpl in *; try discriminate.
+    specialize (IH w1). destruct (run_body b w1) as [[w2 os] p]. simpl in *. auto.
+  Qed.
+
+  (* ================= final statements (restated in Props_C04.v) ================= *)
+
+  Theorem abort_error_panic_invisible_thm :
+    (* explicit Abort of the live write transaction *)
+    (forall w h s, nth_error (txns w) h = Some (mkTxn true (Some s)) ->
+        pub (fst (abort h w)) = pub w /\ locked (fst (abort h w)) = false /\
+        nth_error (txns (fst (abort h w))) h = Some (mkTxn true None)) /\
+    (* Updates whose function returns an error or panics (after any prefix, any nested reads / snapshots / aborts) *)
+    (forall b e w, wf w -> locked w = false ->
+        Forall (fun x => quiet (length (txns w)) x = true) b ->
+        e <> RetNil \/ snd (run_body b (fst (begin true w))) = true ->
+        pub (fst (managed true b e w)) = pub w) /\
+    (* a single-operation helper whose operation fails *)
+    (forall o w, wfail (snd (wapply (pub w) o)) = true -> pub (fst (single o w)) = pub w) /\
+    (* ... ever: with no write transaction in progress, nothing but a NEW write transaction changes the published state *)
+    (forall l w, wf w -> locked w = false -> Forall (fun x => starts_writer x = false) l ->
+        pub (run_bsteps l w) = pub w).
+  Proof.
+    repeat split.
+    - apply abort_pub.
+    - rewrite (abort_live _ _ _ H). reflexivity.
+    - rewrite (abort_live _ _ _ H). simpl. eapply nth_upd_same; eauto.
+    - apply managed_failed_invisible.
+    - intros o w F. rewrite single_spec. destruct (locked w); auto. simpl. rewrite F. auto.
+    - intros l w W U F. apply idle_run; auto.
+  Qed.
+
+  Lemma settled_after_commit h w s :
+    nth_error (txns w) h = Some (mkTxn true (Some s)) ->
+    nth_error (txns (fst (commit h w))) h = Some (mkTxn true None).
+  Proof. intros H. rewrite (commit_live _ _ _ H). simpl. eapply nth_upd_same; eauto. Qed.
+
+  Lemma ending_noop_twice h w :
+    fst (commit h (fst (commit h w))) = fst (commit h w) /\
+    fst (abort h (fst (commit h w))) = fst (commit h w) /\
+    fst (commit h (fst (abort h w))) = fst (abort h w) /\
+    fst (abort h (fst (abort h w))) = fst (abort h w).
+  Proof.
+    destruct (nth_error (txns w) h) as [t|] eqn:H.
+    - destruct (live_w t) eqn:L.
+      + destruct (live_inv _ L) as [s ->].
+        pose proof (settled_after_commit _ _ _ H) as H1.
+        assert (H2 : nth_error (txns (fst (abort h w))) h = Some (mkTxn true None)).
+        { rewrite (abort_live _ _ _ H). simpl. eapply nth_upd_same; eauto. }
+        repeat split.
+        * rewrite (commit_not_live _ _ _ H1); auto.
+        * rewrite (abort_not_live _ _ _ H1); auto.
+        * rewrite (commit_not_live _ _ _ H2); auto.
+        * rewrite (abort_not_live _ _ _ H2); auto.
+      + rewrite (commit_not_live _ _ _ H L), (abort_not_live _ _ _ H L). simpl.
+        rewrite (commit_not_live _ _ _ H L), (abort_not_live _ _ _ H L). auto.
+    - unfold TxnSeq.commit, TxnSeq.abort. rewrite H. simpl. rewrite H. auto.
+  Qed.
+
+  Theorem lock_released_thm :
+    (forall h w s, nth_error (txns w) h = Some (mkTxn true (Some s)) ->
+        locked (fst (commit h w)) = false /\ locked (fst (abort h w)) = false) /\
+    (* Commit / Abort of a read-only or settled transaction are no-ops *)
+    (forall h w t, nth_error (txns w) h = Some t -> live_w t = false ->
+        commit h w = (w, OUnit) /\ abort h w = (w, OUnit)) /\
+    (* double commit / abort in any combination *)
+    (forall h w,
+        fst (commit h (fst (commit h w))) = fst (commit h w) /\
+        fst (abort h (fst (commit h w))) = fst (commit h w) /\
+        fst (commit h (fst (abort h w))) = fst (abort h w) /\
+        fst (abort h (fst (abort h w))) = fst (abort h w)) /\
+    (* Updates / View: whatever fn does (short of opening another write transaction) and however it ends *)
+    (forall wr b e w, wf w -> locked w = false -> Forall (fun x => no_begin_w x = true) b ->
+        locked (fst (managed wr b e w)) = false) /\
+    (* single-operation helpers, successful or not *)
+    (forall o w, locked w = false -> locked (fst (single o w)) = false).
+  Proof.
+    repeat split.
+    - rewrite (commit_live _ _ _ H). reflexivity.
+    - rewrite (abort_live _ _ _ H). reflexivity.
+    - eapply commit_not_live; eauto.
+    - eapply abort_not_live; eauto.
+    - apply ending_noop_twice.
+    - apply ending_noop_twice.
+    - apply ending_noop_twice.
+    - apply ending_noop_twice.
+    - apply managed_releases.
+    - intros o w U. rewrite single_spec, U. reflexivity.
+  Qed.
+
+  Theorem settled_refuses_thm :
+    (forall h w s, nth_error (txns w) h = Some (mkTxn true (Some s)) ->
+        nth_error (txns (fst (commit h w))) h = Some (mkTxn true None) /\
+        nth_error (txns (fst (abort h w))) h = Some (mkTxn true None)) /\
+    (forall h w, nth_error (txns w) h = Some (mkTxn true None) ->
+        (forall o, t_wop h o w = (w, OPanicSettled)) /\
+        (forall r, t_rop h r w = (w, OPanicSettled)) /\
+        iter h w = (w, OPanicSettled) /\
+        snapshot h w = (w, ONil) /\
+        commit h w = (w, OUnit) /\ abort h w = (w, OUnit)).
+  Proof.
+    split.
+    - intros h w s H. split; [apply (settled_after_commit _ _ _ H)|].
+      rewrite (abort_live _ _ _ H). simpl. eapply nth_upd_same; eauto.
+    - intros h w H. unfold TxnSeq.t_wop, TxnSeq.t_rop, TxnSeq.iter, TxnSeq.snapshot, TxnSeq.commit, TxnSeq.abort.
+      rewrite H. simpl. repeat split; auto.
+  Qed.
+
+  Theorem readonly_refuses_thm :
+    forall h w s, nth_error (txns w) h = Some (mkTxn false (Some s)) ->
+      (forall o, t_wop h o w = (w, OW (ro_out o))) /\
+      commit h w = (w, OUnit) /\ abort h w = (w, OUnit) /\
+      (forall r, t_rop h r w = (w, OR (rread s r))).
+  Proof.
+    intros h w s H. unfold TxnSeq.t_wop, TxnSeq.t_rop, TxnSeq.commit, TxnSeq.abort. rewrite H. simpl. repeat split; auto.
+  Qed.
+
+  Theorem read_your_writes_thm :
+    forall h l w s, wf w -> nth_error (txns w) h = Some (mkTxn true (Some s)) ->
+      Forall (fun x => not_ending h x = true) l ->
+      forall r, snd (t_rop h r (run_bsteps l w)) = OR (rread (wfold s (own_writes h l)) r).
+  Proof.
+    intros h l w s W H F r. destruct (ryw_run h l w s W H F) as [H' _].
+    unfold TxnSeq.t_rop. rewrite H'. reflexivity.
+  Qed.
+
+  Lemma in_firstn {A} n (l : list A) x : In x (firstn n l) -> In x l.
+  Proof. revert l; induction n; intros [|a l]; simpl; intuition. Qed.
+
+  Theorem commit_all_at_once_thm :
+    forall l w, wf w -> locked w = false ->
+      let h := length (txns w) in
+      let w1 := fst (begin true w) in
+      Forall (fun x => not_ending h x = true) l ->
+      (forall n, pub (run_bsteps (firstn n l) w1) = pub w) /\
+      pub (fst (commit h (run_bsteps l w1))) = wfold (pub w) (own_writes h l) /\
+      locked (fst (commit h (run_bsteps l w1))) = false.
+  Proof.
+    intros l w W U h w1 F. subst w1. rewrite (begin_true_unlocked _ U). simpl.
+    set (w1 := mkW (pub w) true (txns w ++ [mkTxn true (Some (pub w))])).
+    assert (W1 : wf w1).
+    { pose proof (wf_begin true _ W) as X. rewrite (begin_true_unlocked _ U) in X. exact X. }
+    assert (H1 : nth_error (txns w1) h = Some (mkTxn true (Some (pub w)))) by apply nth_error_app_len.
+    split; [|split].
+    - intros n. assert (Fn : Forall (fun x => not_ending h x = true) (firstn n l)).
+      { apply Forall_forall. intros x I. rewrite Forall_forall in F. apply F. eapply in_firstn; eauto. }
+      destruct (ryw_run h _ w1 _ W1 H1 Fn) as [_ P]. exact P.
+    - destruct (ryw_run h l w1 _ W1 H1 F) as [H2 _]. rewrite (commit_live _ _ _ H2). reflexivity.
+    - destruct (ryw_run h l w1 _ W1 H1 F) as [H2 _]. rewrite (commit_live _ _ _ H2). reflexivity.
+  Qed.
+
+  Theorem updates_commit_all_at_once :
+    forall b w, wf w -> locked w = false ->
+      let h := length (txns w) in
+      Forall (fun x => not_ending h x = true) b ->
+      snd (run_body b (fst (begin true w))) = false ->
+      pub (fst (managed true b RetNil w)) = wfold (pub w) (own_writes h b) /\
+      locked (fst (managed true b RetNil w)) = false.
+  Proof.
+    intros b w W U h F NP.
+    destruct (commit_all_at_once_thm b w W U F) as [_ [P L]].
+    unfold TxnSeq.managed. fold h in P, L. rewrite (begin_true_unlocked _ U) in *. simpl in *.
+    pose proof (run_body_no_panic b _ NP) as E.
+    destruct (run_body b _) as [[w2 os] p]. simpl in *. subst p w2. simpl.
+    rewrite abort_pub. split; auto. apply abort_keeps_unlocked; auto.
+  Qed.
+
 End Proofs.
